@@ -1,5 +1,19 @@
-import Driver.Proto
-/-! C01 handler (not implemented yet). -/
+import Driver.Gql
+/-! C01 handler: executor model and reference semantics on one case. -/
+open Lean TM TM.Gql Driver.Gql
+
 namespace Driver.C01
-def handle : Handler := fun _ => throw "C01: no model yet"
+
+def handle : Handler := fun req => do
+  let op ← str req "op"
+  match op with
+  | "exec" =>
+    let σ ← decSchema (← field req "schema")
+    let root ← nat req "root"
+    let data ← decVal (← field req "data")
+    let q ← decSelSet (← field req "query")
+    let fuel ← nat req "fuel"
+    pure <| Json.mkObj [("exec", encRes (execute σ fuel root data q)), ("ref", encRes (reference σ fuel root data q))]
+  | _ => throw s!"C01: unknown op {op}"
+
 end Driver.C01
